@@ -458,3 +458,73 @@ setup_latch_feedback = Contract(
     dynamic_types={"self": {"layout_plan": ty.TOpaque("plan"), "diagnostics": ty.TOpaque("diag")}},
     properties=("C05", "C08"), min_obligations=2, no_replay=True)
 CONTRACTS.append(setup_latch_feedback)
+
+
+# =================================================================================================
+# MemoryBuilder.handle_latch_write / _create_signal_remapper:
+#   handle_latch_write      a latch write to a declared cell upgrades the cell to the latch kind of the write and takes the inlined path
+#                           exactly when the write carries inline conditions, the standard path otherwise — each exactly once, with this
+#                           write and this cell; a write to an undeclared cell does nothing
+#   _create_signal_remapper one arithmetic placement `input x 1 -> output` under the given id (a pass-through onto the other signal)
+# =================================================================================================
+HL = {}
+
+
+def _hl_call(kind):
+    def eff(ex, a):
+        HL.setdefault(kind, []).append((a.op, a.module, a.signal_graph))
+        return None
+    return eff
+
+
+def _hl_post(a, res):
+    lk = a.self._modules.lookups
+    module = lk[-1][1] if lk else None
+    inl, std = HL.get("inlined", []), HL.get("standard", [])
+    if module is None:
+        return not inl and not std
+    one = (len(inl) + len(std)) == 1
+    call = (inl or std)[0] if one else None
+    return And(one, call is not None and call[0] is a.op and call[1] is module and call[2] is a.signal_graph, module.memory_type is a.op.latch_type,
+               a.op.has_inline_conditions if inl else Not(a.op.has_inline_conditions))
+
+
+CONTRACTS.append(Contract(
+    qualname=MB + "handle_latch_write",
+    params={"self": ty.TObj("MemoryBuilder", only=("MemoryBuilder",)),
+            "op": ty.TObj("IRLatchWrite", only=("IRLatchWrite",), ftypes=(("memory_id", ty.Str), ("latch_type", ty.Str), ("has_inline_conditions", ty.Bool))), "signal_graph": ty.TOpaque("graph")},
+    requires=[("(reset capture)", lambda a: HL.clear() or True)],
+    ensures=[("the cell takes the write's latch kind; the inlined path iff the write has inline conditions, else the standard path — once; nothing for an undeclared cell", _hl_post)],
+    uses={"MemoryBuilder._handle_latch_write_inlined": Contract(qualname=MB + "_handle_latch_write_inlined", params={"self": _OPQ, "op": _OPQ, "module": _OPQ, "signal_graph": _OPQ},
+                                                                effect=_hl_call("inlined"), verify=False, note="proved above (72 comparator pairs)"),
+          "MemoryBuilder._handle_latch_write_standard": Contract(qualname=MB + "_handle_latch_write_standard", params={"self": _OPQ, "op": _OPQ, "module": _OPQ, "signal_graph": _OPQ},
+                                                                 effect=_hl_call("standard"), verify=False, note="proved above"),
+          "opaque.warning": "skip"},
+    dynamic_types={"self": {"_modules": ty.TObjMap(ty.Str, ty.TObj("MemoryModule", only=("MemoryModule",), ftypes=(("memory_type", ty.Str),))), "diagnostics": ty.TOpaque("diag")}},
+    properties=("C05",), min_obligations=3, no_replay=True))
+
+RM = {}
+
+
+def _rm_place(ex, a):
+    RM["kw"] = dict(a.kwargs)
+    r = SObj(["EntityPlacement"], fresh_name("remapper"), lazy=True)
+    RM["placement"] = r
+    return r
+
+
+def _rm_post(a, res):
+    kw = RM.get("kw")
+    return (kw is not None and res is RM.get("placement") and kw.get("ir_node_id") is a.remapper_id and kw.get("entity_type") == "arithmetic-combinator" and kw.get("operation") == "*"
+            and kw.get("left_operand") is a.input_signal and kw.get("right_operand") == 1 and kw.get("output_signal") is a.output_signal)
+
+
+CONTRACTS.append(Contract(
+    qualname=MB + "_create_signal_remapper",
+    params={"self": ty.TObj("MemoryBuilder", only=("MemoryBuilder",)), "remapper_id": ty.Str, "op": ty.TObj("IRLatchWrite", only=("IRLatchWrite",), ftypes=(("memory_id", ty.Str),)),
+            "input_signal": ty.Str, "output_signal": ty.Str, "signal_graph": ty.TOpaque("graph")},
+    requires=[("(reset capture)", lambda a: RM.clear() or True)],
+    ensures=[("one arithmetic placement under this id: input x 1 -> output", _rm_post)],
+    uses={"opaque.create_and_add_placement": Contract(qualname="dsl_compiler/src/layout/layout_plan.py::LayoutPlan.create_and_add_placement", params={"kwargs": _OPQ}, effect=_rm_place, verify=False,
+                                                      note="records the placement (contracts.cgraph: bounded box on the real method)")},
+    dynamic_types={"self": {"layout_plan": ty.TOpaque("plan")}}, properties=("C05",), min_obligations=1, no_replay=True))
